@@ -1776,6 +1776,64 @@ fn judge(o: &mut Outcome, progs: &[(String, &Analysed)], meta: &[(usize, HCfg)],
     verdicts
 }
 
+/// Hand-written files around the corners of the merging code that are clean on the pinned tree
+/// (an aliased one-segment import BEFORE the longer paths it is a prefix of, `self` entries next
+/// to nested lists, one-segment imports under `Crate`, visibility and attribute mixes, duplicates),
+/// under every granularity x grouping x reordering and two editions. Seed-independent.
+const FIXED: &[&str] = &[
+    "use a as x;\nuse a::b;\n",
+    "use a as x;\nuse a::{b, c};\nuse a::d::e;\n",
+    "use a as x;\nuse a::b;\nuse a::b::c;\nuse a::*;\n",
+    "use a::b as x;\nuse a::b::c;\nuse a::b::d as y;\n",
+    "use a::{self as s, b};\nuse a::c;\nuse a::c::d;\n",
+    "use a::{self, b::{self, c}};\nuse a::b::d;\nuse a::e::{self as f};\n",
+    "use a;\nuse a::b;\nuse a::b::c;\nuse a::b::c::d;\n",
+    "use a::b::c::d;\nuse a::b::c;\nuse a::b;\nuse a;\n",
+    "use a::c;\nuse a::c::b::*;\nuse a::c::d;\nuse a::*;\nuse b as _;\n",
+    "use a::b;\nuse a::b;\nuse a::{b, b};\nuse a::b as b;\n",
+    "use a::{c::d, e};\nuse a::c;\nuse a::e::f;\nuse a::e;\n",
+    "use a::{b::c, d::e};\nuse a::b;\nuse a::d;\nuse a::d::e::f;\n",
+    "pub use a::b;\nuse a::c;\npub(crate) use a::d;\npub(in crate) use a::e;\npub use a::f;\n",
+    "pub use a as x;\nuse a::b;\npub use a::c;\n",
+    "#[cfg(k1)]\nuse a::b;\nuse a::c;\n#[cfg(k1)]\nuse a::d;\nuse a::e;\n/// doc\nuse a::f;\n",
+    "use a::b; // t1\nuse a::c;\nuse a::{d, /* n1 */ e};\nuse a::f;\n",
+    "use self::a::b;\nuse self::a::c;\nuse super::a::b;\nuse crate::a::{b, c};\nuse crate::a::d as e;\nuse std::a;\nuse core::a::b;\nuse alloc::a;\n",
+    "use ::a::b;\nuse ::a::c;\nuse a::d;\nuse ::{e, f::g};\n",
+    "use a::{b::{c::{d::{e, f}, g}, h}, i};\nuse a::b::c::d::j;\nuse a::b::k;\n",
+    "use r#try::r#as;\nuse r#try::{b as r#q, c};\nuse a::b as _;\nuse a::c as _;\n",
+    "use a::{};\nuse a::{b};\nuse a::{self};\nuse a::{c::{}};\nuse b::self;\nuse b::c::self as d;\n",
+    "use a::b;\n\nuse a::c;\nfn f() {}\nuse a::d;\nuse a::e;\n#[macro_use]\nuse a::f;\nuse a::g;\n",
+];
+
+fn part_fixed(o: &mut Outcome) {
+    let mut progs: Vec<(String, Analysed)> = vec![];
+    for src in FIXED {
+        match analyse(src) {
+            Ok(a) => progs.push((src.to_string(), a)),
+            Err(e) => o.direct_failures.push(json!({"sig": "c10:harness-parser", "what": e, "src": src})),
+        }
+    }
+    let mut jobs = vec![];
+    let mut meta = vec![];
+    for (pi, (src, _)) in progs.iter().enumerate() {
+        for g in 0..5 {
+            for gi in 0..3 {
+                for r in [false, true] {
+                    for (edition, style, width) in [(2015, 2021, 100), (2021, 2024, 30)] {
+                        let c = HCfg { granularity: g, group: gi, reorder: r, edition, style, width };
+                        jobs.push(Job { src: src.clone(), cfg: c.pairs(), file_lines: None });
+                        meta.push((pi, c));
+                    }
+                }
+            }
+        }
+    }
+    o.count_n("fixed:programs", progs.len() as u64);
+    o.count_n("fixed:formatter-runs", jobs.len() as u64);
+    let res = pool::run_jobs(&jobs, crate::util::jobs(), Duration::from_secs(20));
+    judge(o, &progs.iter().map(|(s, a)| (s.clone(), a)).collect::<Vec<_>>(), &meta, &res, "fixed");
+}
+
 // ------------------------------------------------------------------ 4. probes
 
 /// The oracle of `judge` on one (input, output) pair, evaluated at once: `Err(why)` when the
@@ -1890,6 +1948,9 @@ pub fn run(tier: &str, seed: u64, out: &Path) -> i32 {
     }
     if on("e2e") {
         part_e2e(&mut o, &mut r3, thorough);
+    }
+    if on("fixed") {
+        part_fixed(&mut o);
     }
     if on("probes") {
         part_probes(&mut o);
